@@ -2456,11 +2456,14 @@ class C19(Spec):
     pid = "C19"
     coq_files = ["Properties/C19.v"]
     theorems = ["C19_confined", "C19_interrupted_unpack_has_no_marker", "C19_failed_unpack_has_no_marker",
-                "C19_retry_is_a_clean_unpack", "C19_completed_unpack_has_marker", "C19_accepted_tree_is_the_archive"]
+                "C19_retry_is_a_clean_unpack", "C19_completed_unpack_has_marker", "C19_accepted_tree_is_the_archive", "C19_accepted_directories_are_complete_unpacks"]
     level_text = ("Theorems about a file-system model of unpack_package / fetch_is_ok / the retry in fetch_package, for every archive "
                   "(absolute paths, `..`, other crates' directories, a carried completion marker) and every cut point k: nothing outside "
                   "the crate's own directory changes; an interrupted or failed unpack never leaves a valid marker; the next fetch "
-                  "therefore unpacks from scratch and equals a clean unpack. The order of the steps (stale-directory removal, prefix "
+                  "therefore unpacks from scratch and equals a clean unpack; a directory that is handed out holds exactly what the archive "
+                  "says (last regular-file entry per path, nothing left over, nothing missing: C19_accepted_tree_is_the_archive), and "
+                  "this holds in every state reached by ANY list of fetches of any crates, each cut anywhere or not at all, from a cache "
+                  "without valid markers (C19_accepted_directories_are_complete_unpacks, induction over the history). The order of the steps (stale-directory removal, prefix "
                   "check before unpack_in, marker after the loop) and the skipping of carried `.cargo-ok` entries are re-read from "
                   "the source by the translator. PARTIAL: tar::Entry::unpack_in is specified (skips `..`, never writes through a "
                   "symlink leaving the destination), not verified; power-loss ordering of sync_all is not modelled.")
